@@ -122,10 +122,22 @@ def run_layers(report, n, rng):
 def run_e2e(report, n_fonts, rng, formats=("glyf_colr_1", "cff_colr_1", "cff2_colr_1")):
     from harness import build
 
+    from harness.c06 import CORPUS_SETS
+
+    # directed source sets first (reuse through one-axis scales, mirrors with an offset, gradients with their own
+    # transform), at 8 font units per source unit so that the specialised transform paints are emitted
+    plans = []
+    for name, fmts, tol, texts in CORPUS_SETS:
+        srcs = [(build.filename_for((0x1F600 + k,)), t, (0x1F600 + k,)) for k, t in enumerate(texts)]
+        for metrics in (dict(upem=1024, ascender=896, descender=-128, width=1024), dict()):
+            plans.append((dict(color_format="glyf_colr_1", reuse_tolerance=tol, **metrics), srcs))
     for i in range(n_fonts):
         fmt = formats[i % len(formats)]
         cfg_over = e2e.gen_config(rng, fmt)
         docs, srcs = e2e.gen_sources(rng)
+        plans.append((cfg_over, srcs))
+    for i, (cfg_over, srcs) in enumerate(plans):
+        fmt = cfg_over["color_format"]
         try:
             font, cfg, picos, data = build.build_inprocess(cfg_over, srcs)
         except Exception as ex:  # a build failure on valid input is a finding of its own
